@@ -175,6 +175,8 @@ def runModel (s : Scene) (io : ImplOut) : Outcome (Target Rat Rat × Stats) :=
     | .panic msg => .panic msg
     | .ok (t, st) =>
       let tris := call.2.filterMap fun i => s.tris[i]?
+      -- a call that submits no triangle submits no vertex either (the harness passes `&[]`, `&[]`)
+      let verts := if call.2.isEmpty then [] else verts
       match render (mkCtx s call.1) (shade s) m tris verts t with
       | .panic msg => .panic msg
       | .ok (t', st') => .ok (t', addStats st st')) (.ok (initTarget s, {}))
